@@ -203,7 +203,7 @@ impl<A: MaybeNan, D: Dimension> ArrayN<A, D> {
             proof { lemma_ext_from_trace::<A, D, _>(true, self, __clg, first, __t); }
 //@end
 
-//@extract file=src/quantile/mod.rs impl=QuantileExt:ArrayBase fn=argmin_skipnan id=argmin_skipnan tags=C14 body_tags=C14 lower=fold inline=indexed_fold_skipnan@src/maybe_nan/mod.rs@MaybeNanExt:ArrayBase inline_ty=init:Option<&A::NotNan>
+//@extract file=src/quantile/mod.rs impl=QuantileExt:ArrayBase fn=argmin_skipnan id=argmin_skipnan tags=C14,C17 body_tags=C14 lower=fold inline=indexed_fold_skipnan@src/maybe_nan/mod.rs@MaybeNanExt:ArrayBase inline_ty=init:Option<&A::NotNan>
 //@sig
     fn argmin_skipnan(&self) -> (r: Result<D::Pattern, MinMaxError>)
     where
@@ -213,7 +213,7 @@ impl<A: MaybeNan, D: Dimension> ArrayN<A, D> {
         requires lawful_ord::<A::NotNan>(),
         ensures
             // nothing left (empty or every element missing): EmptyInput
-            (forall|k: int| 0 <= k < self@.len() ==> (#[trigger] self@[k]).is_nan_spec()) ==> r is Err, // [C14]
+            (forall|k: int| 0 <= k < self@.len() ==> (#[trigger] self@[k]).is_nan_spec()) ==> r is Err, // [C14,C17] (the only error value is EmptyInput)
             // otherwise: the index of a not-missing element of the array that bounds every not-missing element
             (exists|k: int| 0 <= k < self@.len() && !(#[trigger] self@[k]).is_nan_spec()) ==> (r matches Ok(p)
                 && exists|k: int| 0 <= k < self@.len() && !(#[trigger] self@[k]).is_nan_spec() && p == self.idx(k)
@@ -258,7 +258,7 @@ impl<A: MaybeNan, D: Dimension> ArrayN<A, D> {
             }
 //@end
 
-//@extract file=src/quantile/mod.rs impl=QuantileExt:ArrayBase fn=argmax_skipnan id=argmax_skipnan tags=C14 body_tags=C14 lower=fold inline=indexed_fold_skipnan@src/maybe_nan/mod.rs@MaybeNanExt:ArrayBase inline_ty=init:Option<&A::NotNan>
+//@extract file=src/quantile/mod.rs impl=QuantileExt:ArrayBase fn=argmax_skipnan id=argmax_skipnan tags=C14,C17 body_tags=C14 lower=fold inline=indexed_fold_skipnan@src/maybe_nan/mod.rs@MaybeNanExt:ArrayBase inline_ty=init:Option<&A::NotNan>
 //@sig
     fn argmax_skipnan(&self) -> (r: Result<D::Pattern, MinMaxError>)
     where
@@ -268,7 +268,7 @@ impl<A: MaybeNan, D: Dimension> ArrayN<A, D> {
         requires lawful_ord::<A::NotNan>(),
         ensures
             // nothing left (empty or every element missing): EmptyInput
-            (forall|k: int| 0 <= k < self@.len() ==> (#[trigger] self@[k]).is_nan_spec()) ==> r is Err, // [C14]
+            (forall|k: int| 0 <= k < self@.len() ==> (#[trigger] self@[k]).is_nan_spec()) ==> r is Err, // [C14,C17] (the only error value is EmptyInput)
             // otherwise: the index of a not-missing element of the array that bounds every not-missing element
             (exists|k: int| 0 <= k < self@.len() && !(#[trigger] self@[k]).is_nan_spec()) ==> (r matches Ok(p)
                 && exists|k: int| 0 <= k < self@.len() && !(#[trigger] self@[k]).is_nan_spec() && p == self.idx(k)
